@@ -1,0 +1,26 @@
+//go:build verif
+
+package sanitize
+
+import "sort"
+
+// Verification hooks (add-only, build tag `verif`): unexported pieces of the sanitiser under Verif… names.
+
+// VerifSanitizeStyle is sanitizeStyle.
+func VerifSanitizeStyle(input string) string { return sanitizeStyle(input) }
+
+// VerifSanitizeStyleTags is sanitizeStyleTags (the x/net/html token filter, before bluemonday).
+func VerifSanitizeStyleTags(input string) (string, error) { return sanitizeStyleTags(input) }
+
+// VerifPolicySanitize is the bluemonday policy alone.
+func VerifPolicySanitize(input string) string { return policy.Sanitize(input) }
+
+// VerifAllowedProperties returns the keys of allowedProperties, sorted.
+func VerifAllowedProperties() []string {
+	res := make([]string, 0, len(allowedProperties))
+	for k := range allowedProperties {
+		res = append(res, k)
+	}
+	sort.Strings(res)
+	return res
+}
